@@ -42,6 +42,10 @@ pub static C16: Scenario = Scenario {
 };
 
 fn scalar(r: &mut Rng) -> Value {
+    if r.chance(1, 10) {
+        // blank but present values: not "missing"
+        return (*r.pick(&[json!(""), json!([]), json!({}), json!(0), json!(false), json!(" ")])).clone();
+    }
     match r.below(8) {
         0 => json!(r.range(-1000, 1000) as i64),
         1 => json!(r.chance(1, 2)),
@@ -68,7 +72,8 @@ fn expectation(r: &mut Rng, used: &mut Vec<String>, time_claims: bool) -> ClaimS
             7 if r.chance(1, 2) => ClaimSpec::Native { key: (*r.pick(&["tenant", "opt", "unit"])).to_string(), val: if r.chance(1, 2) { NativeVal::OptStr(None) } else { NativeVal::Unit } },
             6 if r.chance(1, 2) => ClaimSpec::CustomRef { key: (*r.pick(&[" role", "role ", "\trole", "ro le", "\u{a0}k", "k\n"])).to_string(), value: scalar(r) },
             5 => ClaimSpec::Iat(format!("20{:02}-0{}-1{}T0{}:00:00{}", 20 + r.below(10), 1 + r.below(9), r.below(9), r.below(9), *r.pick(&["Z", "+00:00", "-05:00"]))),
-            _ => ClaimSpec::Custom { key: (*r.pick(&["role", "scope", "data", "k", "tenant", "Role", "a/b", "a~1b", "https://example.com/claims/seats", "x.y"])).to_string(), value: scalar(r) },
+            // (the empty string is a legal member name and a legal custom key)
+            _ => ClaimSpec::Custom { key: (*r.pick(&["role", "scope", "data", "k", "tenant", "Role", "a/b", "a~1b", "https://example.com/claims/seats", "x.y", ""])).to_string(), value: scalar(r) },
         };
         if !used.contains(&c.key().to_string()) {
             used.push(c.key().to_string());
@@ -314,7 +319,7 @@ fn gen(ctx: &GenCtx, i: u64, prop: &str) -> Option<Run> {
     let kf_shadowed = prop == "C15" && default_validators && i % 31 == 5;
     for k in 0..nv {
         let keyname = loop {
-            let c = (*r.pick(&["vdata", "vrole", "vabsent", "vnum", "sub", "aud", "jti", "iss", "v/data", "v~1x", "https://example.com/claims/v", "exp", "nbf", "iat"])).to_string();
+            let c = (*r.pick(&["vdata", "vrole", "vabsent", "vnum", "sub", "aud", "jti", "iss", "v/data", "v~1x", "https://example.com/claims/v", "exp", "nbf", "iat", ""])).to_string();
             // the same key may be registered twice (the later registration is the one in force); exp/nbf
             // validators replace the default ones of PasetoParser::default()
             let dup_ok = prop == "C16" && validators.iter().any(|x: &ValidatorSpec| x.claim.key() == c) && r.chance(1, 3);
@@ -397,7 +402,7 @@ fn gen(ctx: &GenCtx, i: u64, prop: &str) -> Option<Run> {
     let mut expect_final = expect.clone();
     if kf_shadowed {
         let t = now + 5 * DAY;
-        expect_final.push(if r.chance(1, 2) { ClaimSpec::Exp(render_canonical(&mut r, t - t.rem_euclid(crate::civil::NS))) } else { ClaimSpec::Nbf(render_canonical(&mut r, now - 5 * DAY - (now - 5 * DAY).rem_euclid(crate::civil::NS))) });
+        expect_final.push(if r.chance(1, 2) { ClaimSpec::Exp(render_canonical_t(&mut r, t - t.rem_euclid(crate::civil::NS))) } else { ClaimSpec::Nbf(render_canonical_t(&mut r, now - 5 * DAY - (now - 5 * DAY).rem_euclid(crate::civil::NS))) });
     }
     let vspec = VerifierSpec { proto, layer, key, footer: footer.clone(), assertion: assertion.clone(), default_validators, expect: expect_final.clone(), expect_via_extend, validators: validators.clone(), hash_seed: r.next() };
     let control = VerifierSpec { expect: vec![], validators: vec![], expect_via_extend: false, ..vspec.clone() };
